@@ -62,6 +62,17 @@ func algoReport(c *Ctx, prop string, cs algoCase, v algoVerdict, compareModel bo
 		if prop == "C03" && k2Classifier(cs, v.Ans) {
 			known = "K2"
 		}
+		if known == "" {
+			cs, v = shrinkAlgo(c, prop, cs, v, mine)
+			bad = bad[:0]
+			for _, code := range v.Codes {
+				for _, m := range mine {
+					if code == m {
+						bad = append(bad, code)
+					}
+				}
+			}
+		}
 		rep.Disagreement(Disagreement{Kind: "spec", Name: codeNames[bad[0]], Input: cs, Impl: v.Ans.String(),
 			Expect: fmt.Sprintf("spec check codes %v", bad), Known: known})
 	}
@@ -260,4 +271,42 @@ func init() {
 		c.Rep.Rule = "same generators as C02; the score of every implementation answer is compared with the documented model (naive whole-line DP for V2, alignment score of the reported occurrence for V1/exact/prefix/suffix, closed form for equal); non-trivial = text and pattern non-empty"
 		runAlgoProp(c, "C03")
 	}
+}
+
+// shrinkAlgo: delta-debug a failing case by deleting text / pattern characters while some failure code of
+// this property persists (and the K2 classifier still rejects it).
+func shrinkAlgo(c *Ctx, prop string, cs algoCase, v algoVerdict, mine []int) (algoCase, algoVerdict) {
+	fails := func(x algoCase) (algoVerdict, bool) {
+		if x.Bytes && !isASCII(x.Text) {
+			return algoVerdict{}, false
+		}
+		w := algoEval(c, x, NewRNG(1), false)
+		if w.Panic != "" {
+			return w, false
+		}
+		if prop == "C03" && k2Classifier(x, w.Ans) {
+			return w, false
+		}
+		return w, hasCode(w.Codes, mine...)
+	}
+	for progress := true; progress; {
+		progress = false
+		for i := 0; i < len(cs.Text); i++ {
+			x := cs
+			x.Text = append(append([]int{}, cs.Text[:i]...), cs.Text[i+1:]...)
+			if w, ok := fails(x); ok {
+				cs, v, progress = x, w, true
+				i--
+			}
+		}
+		for i := 0; i < len(cs.Pat) && len(cs.Pat) > 1; i++ {
+			x := cs
+			x.Pat = append(append([]int{}, cs.Pat[:i]...), cs.Pat[i+1:]...)
+			if w, ok := fails(x); ok {
+				cs, v, progress = x, w, true
+				i--
+			}
+		}
+	}
+	return cs, v
 }
